@@ -97,6 +97,47 @@ impl PanicInfo {
 }
 
 // ---------------------------------------------------------------------------------------------
+// Per-case watchdog: a case that does not return (e.g. a signing loop that cycles) is reported as
+// INCONCLUSIVE (exit 2) together with the case, never as a violation.
+
+use std::sync::Mutex;
+use std::time::Instant;
+
+static WATCH: Mutex<Vec<(u64, Instant, String)>> = Mutex::new(Vec::new());
+static WATCH_ID: std::sync::atomic::AtomicU64 = std::sync::atomic::AtomicU64::new(1);
+
+pub struct WatchGuard(u64);
+
+pub fn watch(describe: impl FnOnce() -> String) -> WatchGuard {
+    let id = WATCH_ID.fetch_add(1, std::sync::atomic::Ordering::Relaxed);
+    if let Ok(mut w) = WATCH.lock() {
+        w.push((id, Instant::now(), describe()));
+    }
+    WatchGuard(id)
+}
+
+impl Drop for WatchGuard {
+    fn drop(&mut self) {
+        if let Ok(mut w) = WATCH.lock() {
+            w.retain(|e| e.0 != self.0);
+        }
+    }
+}
+
+pub fn start_watchdog() {
+    let limit: u64 = std::env::var("VERIF_CASE_TIMEOUT").ok().and_then(|s| s.parse().ok()).unwrap_or(240);
+    let _ = std::thread::spawn(move || loop {
+        std::thread::sleep(std::time::Duration::from_secs(2));
+        if let Ok(w) = WATCH.lock() {
+            if let Some(e) = w.iter().find(|e| e.1.elapsed().as_secs() > limit) {
+                eprintln!("INCONCLUSIVE: a single case did not return within {limit}s (hang or non-terminating loop in the code under test?): {}", e.2.chars().take(1500).collect::<String>());
+                std::process::exit(2);
+            }
+        }
+    });
+}
+
+// ---------------------------------------------------------------------------------------------
 // Statistics
 
 pub const SAMPLES_PER_CLASS: usize = 2;
@@ -290,6 +331,7 @@ where
             let mut runner = TestRunner::new(config);
             let state: RefCell<(Stats, Option<Fail>)> = RefCell::new((Stats::default(), None));
             let res = runner.run(&make(), |case| {
+                let _wd = watch(|| format!("{prop}/{sub}: {case:?}"));
                 let mut st = state.borrow_mut();
                 if st.1.is_some() {
                     // shrinking phase: do not count
@@ -359,6 +401,7 @@ where
             let lo = c * per;
             let hi = ((c + 1) * per).min(n);
             for i in lo..hi {
+                let _wd = watch(|| format!("{sub}: sweep element {i}"));
                 if let Err(f) = check(i, &mut stats) {
                     if !fails.iter().any(|(_, g)| g.key == f.key) {
                         fails.push((i, f));
@@ -396,6 +439,7 @@ where
         .enumerate()
         .map(|(i, c)| {
             let mut stats = Stats::default();
+            let _wd = watch(|| format!("{sub}: list element {i}"));
             let r = check(c, &mut stats);
             (stats, r.err().map(|f| (i, f)))
         })
